@@ -297,6 +297,26 @@ def _worker(case):
     return run_case(case)
 
 
+def _limit_memory():
+    """Pool initializer: cap the address space of a worker (2 GiB) so that an input which
+    makes the compiler build astronomically large integers fails fast with MemoryError
+    instead of exhausting the shared machine."""
+    import resource
+    try:
+        resource.setrlimit(resource.RLIMIT_AS, (2 << 30, 2 << 30))
+    except (ValueError, OSError):
+        pass
+
+
+def run_cases_isolated(cases, procs=4):
+    """run_case for every case, in forked, memory-capped workers."""
+    if not cases:
+        return []
+    ctx = multiprocessing.get_context("fork")
+    with ctx.Pool(processes=max(1, min(procs, len(cases))), initializer=_limit_memory) as pool:
+        return pool.map(_worker, cases, chunksize=max(1, min(8, len(cases) // (procs * 2) or 1)))
+
+
 class Explorer:
     def __init__(self, chk):
         self.chk = chk
@@ -343,14 +363,8 @@ class Explorer:
             self.fmt_cases.append((case, res["fmt"]))
 
     def run(self, cases, procs=4):
-        if procs <= 1 or len(cases) < 16:
-            for c in cases:
-                self.record(c, run_case(c))
-            return
-        ctx = multiprocessing.get_context("fork")
-        with ctx.Pool(processes=procs) as pool:
-            for c, res in zip(cases, pool.imap(_worker, cases, chunksize=8)):
-                self.record(c, res)
+        for c, res in zip(cases, run_cases_isolated(cases, procs)):
+            self.record(c, res)
 
     def finish(self):
         x = self.chk.extra
@@ -736,8 +750,20 @@ def tie_queue(chk, r, n):
         def reader(name):
             calls.append(name)
             return base(name)
+        old = signal.signal(signal.SIGPROF, _alarm)
+        signal.setitimer(signal.ITIMER_PROF, 20)
         try:
-            ir, dbg, errs = glue.only_parse_emboss_file(root, reader)
+            try:
+                ir, dbg, errs = glue.only_parse_emboss_file(root, reader)
+            finally:
+                signal.setitimer(signal.ITIMER_PROF, 0)
+                signal.signal(signal.SIGPROF, old)
+        except _Timeout:
+            chk.violation("input", {"files": files, "main": root, "input": files.get(root, ""),
+                                    "observed": "only_parse_emboss_file: no result within 20 s of CPU time "
+                                                "(%d reads, %d distinct)" % (len(calls), len(set(calls))),
+                                    "expected": "terminates; each file read at most once"}, key="timeout:import-queue")
+            break
         except Exception as e:  # noqa: BLE001
             chk.violation("input", {"files": files, "main": root, "input": files.get(root, ""),
                                     "observed": "only_parse_emboss_file raised " + " | ".join(tb_tail(e)),
@@ -884,8 +910,8 @@ def exploration(chk, tier, with_model):
     ex = Explorer(chk)
     ex.fmt_budget = 250 if tier == "quick" else 2500
     # pinned inputs of open findings first: still failing ⇒ KNOWN-FINDING line
-    for k, case in known_cases(chk):
-        res = run_case(case)
+    kc = known_cases(chk)
+    for (k, case), res in zip(kc, run_cases_isolated([c for _, c in kc])):
         chk.count()
         if any(key == k["key"] for key, _ in res["bad"]):
             chk.report_known(k)
